@@ -30,6 +30,11 @@ def run(ctx):
     index_record(ctx, f, cfg)
     write_order(ctx, f, cfg)
     readers(ctx, f, cfg)
+    line_source(ctx, f, cfg)
+    offset_found(ctx, f, cfg)
+    cache_file(ctx, f, cfg)
+    file_order(ctx, f, cfg)
+    retention_order(ctx, f, cfg)
     no_panic(ctx, f, cfg)
 
 
@@ -220,6 +225,201 @@ def readers(ctx, f, cfg):
         ctx.instance("C19.torn-line", b.path, {"from_string_sites": len(fs), "skipped_not_propagated": okm}, "Err(line) -> log and continue", okm, cfg)
         if not okm:
             ctx.violation("C19.torn-line", "C19.torn-line|" + b.path.rsplit("::", 1)[-1], "a malformed (torn) line aborts the search or is unwrapped", b.loc(), config=cfg)
+
+
+# ---- rules added after the second seeded batch / D17-D20 -------------------------------------------------------------------------------
+from . import decision as D
+from .decrules import make_classifier
+
+
+def _implied_rel(lits, a, b):
+    """Set of orderings of (a, b) in '<=>' consistent with the cmp literals of a path (None if the pair is never compared)."""
+    cons = []
+    for l in lits:
+        want = True
+        if l[0] == "not":
+            l, want = l[1], False
+        if l[0] == "cmp" and {l[2], l[3]} == {a, b}:
+            sym = l[1] if (l[2], l[3]) == (a, b) else D.FLIP[l[1]]
+            cons.append((sym, want))
+    if not cons:
+        return None
+    out = set()
+    for r in "<=>":
+        if all({"<": r == "<", "<=": r in "<=", ">": r == ">", ">=": r in ">=", "==": r == "=", "!=": r != "="}[sym] == want for sym, want in cons):
+            out.add(r)
+    return out
+
+
+def _feasible(p):
+    return not any(l == ("const", False) for l in p["lits"])
+
+
+def _returns_variant(b, p, variant):
+    return any(st["k"] == "assign" and st["lhs"]["l"] == 0 and not st["lhs"]["p"] and st["rv"]["k"] == "agg" and st["rv"].get("variant") == variant
+               for x in p["blocks"] for st in b.blocks[x]["stmts"])
+
+
+def line_source(ctx, f, cfg):
+    """Both per-file readers hand MetricItem::from_string a line WITHOUT its terminator (the last field is numeric: a trailing LF makes
+    every line unparsable and the reader silently skips all of them).  `lines()` strips it; a buffer filled by read_line must be trimmed."""
+    rs = [b for p, b in f.bodies.items() if "DefaultMetricLogReader::read_metrics" in p and b.kind == "AssocFn" and "bool)" in b.ret_ty]
+    TRIM = ("trim_end_matches", "trim_end", "trim", "strip_suffix", "trim_matches", "trim_right", "trim_right_matches")
+    for b in rs:
+        sl = Slicer(f, b)
+        uses_read_line = any(callee_def(t).rsplit("::", 1)[-1] in ("read_line", "read_until", "read_to_string") for _, t in b.calls())
+        for bb, t in b.calls():
+            if not callee_is(t, "MetricItem::from_string"):
+                continue
+            at = sl.of_operand(t["args"][0])
+            from_lines = any(x.startswith("call:") and "Lines" in x and x.endswith("::next") for x in at)
+            trimmed = any(x.startswith("call:") and x.rsplit("::", 1)[-1] in TRIM for x in at)
+            ok = (from_lines and not uses_read_line) or trimmed
+            ctx.instance("C19.line-source", b.path, {"line_from_lines()": from_lines, "buffer_filled_by_read_line": uses_read_line, "terminator_trimmed": trimmed},
+                         "the parsed text carries no line terminator", ok, cfg)
+            if not ok:
+                ctx.violation("C19.line-source", "C19.line-source|" + b.path.rsplit("::", 1)[-1],
+                              "%s parses lines that still carry their terminator (read_line keeps it): every line fails to parse and is skipped, the search returns nothing" % b.path.rsplit("::", 1)[-1],
+                              b.loc(bb), config=cfg)
+
+
+def offset_found(ctx, f, cfg):
+    """find_offset_to_start answers Ok(offset) only for an index entry whose second is >= the begin second; when the file has no such
+    entry it must say so (Err), so that the search moves on to the next file instead of reading this one from its last second."""
+    b = f.one("DefaultMetricSearcher::find_offset_to_start")
+    if not ctx.floor("C19.offset-found", "find_offset_to_start", 1 if b else 0, 1):
+        return
+    roles = [("begin", ["param:begin_time_ms"], []), ("entry", ["call:read_u64"], ["param:begin_time_ms"])]
+    w = D.Walker(f, b, make_classifier(roles), unroll=2)
+    paths = [p for p in w.walk(0, lambda bb, env: None) if p["outcome"][0] == "return" and _feasible(p)]
+    n_ok = n_found = 0
+    bad = []
+    for p in paths:
+        if not _returns_variant(b, p, "Ok"):
+            continue
+        n_ok += 1
+        rel = _implied_rel(p["lits"], "begin", "entry")
+        # the LAST comparison on the path decides: collect only the final literal about (begin, entry)
+        last = None
+        for l in p["lits"]:
+            base = l[1] if l[0] == "not" else l
+            if base[0] == "cmp" and {base[2], base[3]} == {"begin", "entry"}:
+                last = l
+        lrel = _implied_rel([last], "begin", "entry") if last else None
+        if lrel is not None and lrel <= set("<="):
+            n_found += 1
+        else:
+            bad.append([D.fmt_expr(l) if hasattr(D, "fmt_expr") else str(l) for l in p["lits"] if (l[1] if l[0] == "not" else l)[0] in ("cmp", "disc", "disc_other") and "other:" not in str(l)][-4:])
+    ok = n_found >= 1 and not bad
+    ctx.instance("C19.offset-found", b.path, {"ok_paths": n_ok, "ok_paths_after_entry>=begin": n_found, "ok_paths_without_a_matching_entry": bad[:3]},
+                 "Ok(offset) only after an index entry with second >= begin second", ok, cfg)
+    if not ok:
+        ctx.violation("C19.offset-found", "C19.offset-found|find_offset_to_start",
+                      "find_offset_to_start returns Ok(offset) although no index entry at or after the begin second was found (%s): a query that begins in a later file reads this file from its last second and returns nothing" % (bad[:1] or "no matching-entry path recognised"),
+                      b.loc(), config=cfg)
+
+
+def cache_file(ctx, f, cfg):
+    """get_offset_start_and_file_idx: the start file taken from the cache is the cached file itself (equality with the cached name)."""
+    b = f.one("DefaultMetricSearcher::get_offset_start_and_file_idx")
+    if not ctx.floor("C19.cache-file", "get_offset_start_and_file_idx", 1 if b else 0, 1):
+        return
+    sl = Slicer(f, b)
+    roles = [("cached", ["field:FilePosition.metric_filename"], []), ("file", ["call:Iterator::next"], ["field:FilePosition.metric_filename"])]
+    w = D.Walker(f, b, make_classifier(roles), unroll=1)
+    # blocks that store the chosen file index (a user variable fed by the enumerate() index)
+    stores = set()
+    # the locals returned in the (offset, file index) tuple
+    returned = set()
+    for blk in b.blocks:
+        for st in blk["stmts"]:
+            if st["k"] == "assign" and st["rv"]["k"] == "agg" and st["rv"].get("tuple") and len(st["rv"]["ops"]) == 2:
+                for o in st["rv"]["ops"]:
+                    pl = op_place(o)
+                    while pl is not None and not b.vname(pl["l"]):
+                        d = def_of_local(b, pl["l"])
+                        pl = op_place(d[3]["rv"]["op"]) if d and d[0] == "assign" and d[3]["rv"]["k"] == "use" else None
+                    if pl is not None:
+                        returned.add(pl["l"])
+    for bi, blk in enumerate(b.blocks):
+        if blk["cleanup"]:
+            continue
+        for st in blk["stmts"]:
+            if st["k"] == "assign" and not st["lhs"]["p"] and st["lhs"]["l"] in returned and b.local_ty(st["lhs"]["l"]) == "usize" and st["rv"]["k"] == "use":
+                at = sl.of_operand(st["rv"]["op"])
+                if any(x.startswith("call:") and x.endswith("::next") for x in at) and any_atom(at, "call:Iterator::enumerate"):
+                    stores.add(bi)
+    paths = [p for p in w.walk(0, lambda bb, env: None) if _feasible(p)]
+    n = 0
+    bad = []
+    for p in paths:
+        if not (set(p["blocks"]) & stores):
+            continue
+        n += 1
+        rel = _implied_rel(p["lits"], "cached", "file")
+        if rel != {"="}:
+            bad.append(sorted(rel) if rel else "not compared")
+    ok = bool(stores) and n >= 1 and not bad
+    ctx.instance("C19.cache-file", b.path, {"index_store_sites": len(stores), "paths_storing": n, "not_under_equality": bad[:3]}, "file index taken only where file == cached file", ok, cfg)
+    if not ok:
+        ctx.violation("C19.cache-file", "C19.cache-file|get_offset_start_and_file_idx",
+                      "the cached position selects a file that is not the cached one (relation %s): a reused searcher skips files that contain the requested seconds" % (bad[:1] or "no store found"), b.loc(), config=cfg)
+
+
+def file_order(ctx, f, cfg):
+    """Files of one day are ordered by their NUMBER: a plain text comparison puts .10 before .2, so after ten roll-overs the writer
+    re-creates (truncates) an existing file, retention deletes the newest files and the searcher reads files out of write order."""
+    b = f.one("metric::filename_comparator")
+    if not ctx.floor("C19.file-order", "filename_comparator", 1 if b else 0, 1):
+        return
+    sl = Slicer(f, b)
+    at = sl.of_local(0)
+    numeric = sorted(x for x in at if x.startswith("call:") and x.rsplit("::", 1)[-1] in ("len", "parse", "from_str", "from_str_radix"))
+    ctx.instance("C19.file-order", b.path, {"number_aware_components": [short_(x) for x in numeric]}, "the tie-break on the same date compares lengths or parsed numbers", bool(numeric), cfg)
+    if not numeric:
+        ctx.violation("C19.file-order", "C19.file-order|text-compare", "files of one day are ordered by text comparison only (.10 sorts before .2)", b.loc(), config=cfg)
+    # everyone who relies on the order sorts with this comparator
+    users = 0
+    for name in ("metric::list_metric_files_conditional",):
+        lb = f.one(name)
+        if lb is None:
+            continue
+        for bb, t in lb.calls():
+            if callee_def(t).rsplit("::", 1)[-1] in ("sort_by", "sort_unstable_by") and any(a.get("k") == "const" and "filename_comparator" in (a.get("fn") or a.get("text") or "") for a in t["args"]):
+                users += 1
+    ctx.instance("C19.file-order/users", "list_metric_files_conditional", {"sorted_with_comparator": users}, ">= 1", users >= 1, cfg)
+    if users < 1:
+        ctx.violation("C19.file-order", "C19.file-order|listing-unsorted", "the file listing the writer and the searcher rely on is not sorted with filename_comparator", config=cfg)
+
+
+def short_(x):
+    return x.split(":", 1)[1].rsplit("::", 2)[-2] + "::" + x.rsplit("::", 1)[-1] if x.count("::") >= 2 else x
+
+
+def retention_order(ctx, f, cfg):
+    """Retention removes len - max + 1 files, i.e. it leaves room for the file about to be created: pruning with that formula has to
+    run BEFORE the creation (after it, one file too many - the oldest still inside the limit - is deleted)."""
+    rm = f.one("DefaultMetricLogWriter::remove_deprecated_files")
+    cl = f.one("DefaultMetricLogWriter::close_cur_and_new_file")
+    if not ctx.floor("C19.retention-order", "remove_deprecated_files + close_cur_and_new_file", (1 if rm else 0) + (1 if cl else 0), 2):
+        return
+    sl = Slicer(f, rm)
+    room = None
+    for bb, t in rm.calls():
+        if callee_def(t).rsplit("::", 1)[-1] == "take" and len(t["args"]) == 2:
+            at = sl.of_operand(t["args"][1])
+            room = ("const:1" in at and any(x in at for x in ("op:Add", "op:AddWithOverflow"))) and any_atom(at, "field:DefaultMetricLogWriter.max_file_amount")
+    prune = [bb for bb, t in cl.calls() if callee_def(t).endswith("remove_deprecated_files")]
+    create = [bb for bb, t in cl.calls() if callee_def(t).endswith(("File::create", "OpenOptions::open"))]
+    before = bool(prune) and bool(create) and all(cl.dominates(prune[0], c) for c in create)
+    after = bool(prune) and bool(create) and all(any(cl.dominates(c, pb) for c in create) for pb in prune)
+    ok = room is not None and bool(prune) and len(create) >= 2 and ((room and before) or (room is False and after))
+    ctx.instance("C19.retention-order", cl.path, {"amount_leaves_room_for_new_file": room, "prune_sites": len(prune), "create_sites": len(create), "prune_before_create": before},
+                 "pruning that leaves room runs before the creation", ok, cfg)
+    if not ok:
+        ctx.violation("C19.retention-order", "C19.retention-order|close_cur_and_new_file",
+                      "retention prunes %s the new files are created but %s: files inside the retention limit are deleted (or the limit is exceeded)" % (
+                          "before" if before else "after", "does not leave room for them" if room is False else "already leaves room for one"), cl.loc(), config=cfg)
 
 
 def no_panic(ctx, f, cfg):
